@@ -187,6 +187,9 @@ class Body:
             d = {}
             for bi, si, s in self.stmts():
                 if s["k"] in ("assign", "set_discr"):
+                    proj = s["place"].get("p") or []
+                    if proj and proj[0]["k"] == "deref":
+                        continue  # writes to the pointee, not to the local itself
                     d.setdefault(s["place"]["l"], []).append((bi, si))
             for bi, b in enumerate(self.blocks):
                 t = b["term"]
